@@ -1319,7 +1319,21 @@ pub fn run_replay(words: &[&str]) -> String {
         };
         let (rdata, rfail) = {
             let text2 = text.clone();
-            let r = catch_unwind(AssertUnwindSafe(|| shuttle_schedulers::ReplayScheduler::new_from_encoded(&text2)));
+            // the three public ways of building a replay scheduler are the same scheduler: through the printed text, through
+            // a file holding that text (as persisted by FailurePersistence::File), from the Schedule value
+            let how = (seed as usize).wrapping_add(i) % 3;
+            let sch2 = sch.clone();
+            let r = catch_unwind(AssertUnwindSafe(|| match how {
+                0 => shuttle_schedulers::ReplayScheduler::new_from_encoded(&text2),
+                1 => {
+                    let path = std::env::temp_dir().join(format!("vh-replay-{}-{}.txt", std::process::id(), i));
+                    std::fs::write(&path, &text2).expect("vharness: cannot write the schedule file");
+                    let rs = shuttle_schedulers::ReplayScheduler::new_from_file(&path);
+                    let _ = std::fs::remove_file(&path);
+                    rs.expect("vharness: cannot read the schedule file")
+                }
+                _ => shuttle_schedulers::ReplayScheduler::new_from_schedule(sch2),
+            }));
             match r {
                 Ok(rs) => run_recorded(rs, config.clone(), prog.clone()),
                 Err(_) => (vec![], Some("replay-constructor-panicked".to_string())),
